@@ -557,6 +557,9 @@ func (w *World) opGC(op Op) {
 
 // opRestart closes the server and opens a new one on the same storage.
 func (w *World) opRestart() {
+	if w.switched {
+		return // a memory store over the directory: what it holds in memory does not survive, the history goes on without restarts
+	}
 	w.settle()
 	if !w.k.readOnly() {
 		w.markCollectable() // Close runs a collection on every open repository
@@ -580,6 +583,12 @@ func (w *World) opRestart() {
 		// pure memory store: everything is gone
 		w.m = newModel(w.k)
 	}
+	if w.switchTo != "" && w.k.Store == "dir" {
+		// the new server is a memory store layered over the directory the old one filled
+		w.k.Store, w.name, w.switched = w.switchTo, w.switchTo, true
+		w.x.out.probe("restart-as-memory-over-directory")
+	}
+	w.switchTo = ""
 	w.open()
 	w.restartAt = len(w.x.sim.FS.Log)
 	w.x.out.probe("restart")
